@@ -53,6 +53,19 @@ func immOrigins() []struct {
 			return []*Node{Def("s", Imm(Map([]string{"k"}, []*Node{Arr(Int(1), Int(2))}))), Def("src", Arr(Map([]string{"a"}, []*Node{Id("s")}), Id("s"))),
 				Def("v", Call(Id("freeze"), Id("src")))}, nil
 		}},
+		{"freeze-then-grow-source", func() ([]*Node, []Module) {
+			// the argument of freeze stays the caller's own value: what happens to it afterwards must not reach the frozen copy
+			return []*Node{Def("src", Map([]string{"opts", "list", "n", "deep"}, []*Node{Map(nil, nil), Arr(), Int(1), Arr(Map(nil, nil), Arr())})),
+				Def("v", Call(Id("freeze"), Id("src"))),
+				Set("src", []*Node{DotKey("opts"), DotKey("debug")}, "=", Bool(true)),
+				Set("src", []*Node{DotKey("list")}, "=", Call(Id("append"), Sel(Id("src"), "list"), Int(1))),
+				Set("src", []*Node{DotKey("deep"), Int(0), DotKey("k")}, "=", Int(7)),
+				Set("src", []*Node{DotKey("n")}, "=", Int(2))}, nil
+		}},
+		{"freeze-empty-array-then-append", func() ([]*Node, []Module) {
+			return []*Node{Def("src", Arr(Arr(), Map(nil, nil), Int(3))), Def("v", Call(Id("freeze"), Id("src"))),
+				Set("src", []*Node{Int(1), DotKey("late")}, "=", Int(1)), Set("src", []*Node{Int(2)}, "=", Int(4))}, nil
+		}},
 		{"aliased-before", func() ([]*Node, []Module) { return []*Node{Def("src", arr()), Def("v", Imm(Id("src")))}, nil }},
 		{"immutable-of-slice", func() ([]*Node, []Module) {
 			return []*Node{Def("src", Arr(Int(1), Int(2), Int(3), Int(4))), Def("v", Imm(Slice(Id("src"), Int(1), Int(3))))}, nil
@@ -64,7 +77,7 @@ func (g *immGen) op(src string) []*Node {
 	d := g.nm()
 	s := Id(src)
 	var st []*Node
-	switch g.r.Intn(21) {
+	switch g.r.Intn(24) {
 	case 0:
 		st = []*Node{Def(d, Slice(s, Int(int64(g.r.Intn(2))), nil))}
 	case 1:
@@ -107,6 +120,12 @@ func (g *immGen) op(src string) []*Node {
 		st = []*Node{Def(d, Bin("+", s, Imm(Arr())))} // concatenation with an empty operand must not hand out the operand's storage
 	case 20:
 		st = []*Node{Def(d, Bin("+", Imm(Arr()), s))}
+	case 21:
+		st = []*Node{Def(d, CallSpread(Id("append"), s, Arr()))} // append with an empty spread: no items at all
+	case 22:
+		st = []*Node{Def(d, CallSpread(Id("append"), s, Imm(Arr())))}
+	case 23:
+		st = []*Node{Def(d, Call(Id("append"), Call(Id("append"), s, Int(5)), Int(6)))}
 	}
 	g.vars = append(g.vars, d)
 	return st
